@@ -149,7 +149,10 @@ class Interp(Engine):
                 newv = self.binop(op, cur, rhs)
                 self.assign(s.target, newv, env)
                 return
-            self.assign(s.target, self.binop(op, cur, rhs), env)
+            res = self.binop(op, cur, rhs)
+            if isinstance(cur, SV) and cur.shape is not None and isinstance(res, SV):
+                res.shape, res.tag = cur.shape, cur.tag   # in-place ndarray update keeps the left operand's shape
+            self.assign(s.target, res, env)
             return
         cur = self.eval(_as_load(s.target), env)
         rhs = self.eval(s.value, env)
@@ -950,7 +953,32 @@ class Interp(Engine):
                     return SV(r, 'real')
         if isinstance(a, SV) and a.kind == 'bool' and isinstance(b, SV) and b.kind == 'bool' and op in '&|^':
             return SV({'&': z3.And, '|': z3.Or, '^': z3.Xor}[op](a.z, b.z), 'bool')
-        return self.app(f'op{op}', [a, b])
+        r = self.app(f'op{op}', [a, b])
+        sh = self._broadcast(getattr(a, 'shape', None) if isinstance(a, SV) else (() if isinstance(a, (int, float)) else None),
+                             getattr(b, 'shape', None) if isinstance(b, SV) else (() if isinstance(b, (int, float)) else None))
+        if sh is not None and op != '@':
+            r.shape = sh
+            r.tag = 'ndarray'
+        return r
+
+    def _broadcast(self, sa, sb):
+        if sa is None or sb is None:
+            return None
+        if len(sa) < len(sb):
+            sa = (1,) * (len(sb) - len(sa)) + tuple(sa)
+        if len(sb) < len(sa):
+            sb = (1,) * (len(sa) - len(sb)) + tuple(sb)
+        out = []
+        for x, y in zip(sa, sb):
+            if isinstance(x, int) and x == 1:
+                out.append(y)
+            elif isinstance(y, int) and y == 1:
+                out.append(x)
+            elif (isinstance(x, int) and isinstance(y, int) and x == y) or (z3.is_expr(x) and z3.is_expr(y) and z3.eq(x, y)):
+                out.append(x)
+            else:
+                return None
+        return tuple(out)
 
     def _nonzero(self, y):
         if self.sat(y == 0) != z3.unsat:
@@ -1024,7 +1052,7 @@ class Interp(Engine):
             o = b if a is None else a
             if o is None:
                 return True
-            if isinstance(o, SV) and o.kind == 'val':
+            if isinstance(o, SV) and o.kind == 'val' and o.tag is None and o.app is None:
                 return o.z == NONE
             return False
         if isinstance(a, (SV, Obj)) and isinstance(b, (SV, Obj)):
@@ -1098,6 +1126,14 @@ class Interp(Engine):
                 return len(base.shape)
             if isinstance(base, ArrV) and name == 'T' and len(base.shape) <= 1:
                 return base
+            if isinstance(base, SV) and base.shape is not None and name in ('shape', 'ndim', 'T'):
+                if name == 'shape':
+                    return tuple(SV(d, 'int') if z3.is_expr(d) else d for d in base.shape)
+                if name == 'ndim':
+                    return len(base.shape)
+                r = self.app('attr.T', [base], tag='ndarray')
+                r.shape = tuple(reversed(base.shape))
+                return r
             if isinstance(base, SV) and name in ('shape', 'ndim', 'T', 'size', 'dtype', 'real', 'imag', 'flat'):
                 if name == 'shape':
                     return self.app('attr.shape', [base])
@@ -1649,6 +1685,9 @@ class Interp(Engine):
         if name == 'str':
             if isinstance(args[0], (str, int, float, bool, type(None))):
                 return str(args[0])
+            if isinstance(args[0], TypeV):
+                loc = self.class_index().get(args[0].name)
+                return f"<class '{loc[0]}.{args[0].name}'>" if loc else f"<class '{args[0].name}'>"
             if isinstance(args[0], Obj) and args[0].cls is not None:
                 return f"<class '{args[0].cls}'>" if False else self.app('str', [args[0]])
             return self.app('str', [args[0]])
